@@ -161,6 +161,36 @@ class Request:
         return res[0]
 
 
+class _NullRequest(Request):
+    """MPI.REQUEST_NULL: an inactive request.  Wait / Test return at once,
+    Waitsome / Waitany / Waitall ignore it (MPI 3.1, section 3.7.5)."""
+
+    def __init__(self):    # noqa: D107 (no simulation behind it)
+        self.sim = None
+        self.kind = "null"
+        self.rank = None
+        self.peer = None
+        self.tag = None
+        self.buf = None
+        self.complete = True
+        self.consumed = True
+        self.id = -1
+        self.snapshot = None
+        self.eager = False
+        self.matched = False
+
+    def Wait(self, status=None):
+        return True
+
+    wait = Wait
+
+    def Test(self, status=None):
+        return True
+
+
+REQUEST_NULL = _NullRequest()
+
+
 class Op:
     def __init__(self, fn, commute):
         self.fn = fn
@@ -238,6 +268,7 @@ def install_fake_mpi4py():
     MPI.Op = Op
     MPI.Comm = Comm
     MPI.UNDEFINED = -32766
+    MPI.REQUEST_NULL = REQUEST_NULL
     mpi4py.MPI = MPI
     sys.modules["mpi4py"] = mpi4py
     sys.modules["mpi4py.MPI"] = MPI
@@ -453,6 +484,8 @@ class Sim:
         return req
 
     def _wait(self, req):
+        if req.rank is None:
+            return                      # MPI.REQUEST_NULL
         self._check_rank(req.rank)
         if req.consumed:
             return
@@ -484,7 +517,7 @@ class Sim:
         rank = self.current
         self.stats["waitsome_calls"] += 1
         for r in requests:
-            if r.rank != rank:
+            if r.rank is not None and r.rank != rank:
                 raise SimProtocolError("Waitsome on another rank's request")
         active = [r for r in requests if not r.consumed]
         if not active:
